@@ -179,11 +179,14 @@ def rAfter (items : Nat → P (Option RItem)) (cmd : Bytes) : P (Option RItem) :
       | some n => pureP (some (.int n))
     else pureP none
 
-/-- `parseRedisData`; the outer `Option` is "needs more input", the inner one is a parse error (connection ends);
-the fuel bounds the nesting depth of arrays -/
+/-- `parseRedisDataDepth`; the outer `Option` is "needs more input", the inner one is a parse error (connection
+ends); `levels` is the number of nesting levels still allowed (`maxRedisDepth` + 1 at the top): beyond it the
+request is rejected before another line is read -/
 def rItem : Nat → P (Option RItem)
-  | 0 => fun _ => none
-  | fuel + 1 => bindP scanLine (rAfter (rItemsWith (rItem fuel)))
+  | 0 => pureP none
+  | levels + 1 => bindP scanLine (rAfter (rItemsWith (rItem levels)))
+
+def redisLevels : Nat := 33
 
 /-- what `Handle` does with a parsed datum: `(events, stays open)` -/
 def redisStep : Option RItem → List Ev × Bool
@@ -195,11 +198,11 @@ def redisStep : Option RItem → List Ev × Bool
 
 def redisNext : Bool → P (List Ev × Bool)
   | true => fun _ => none
-  | false => fun b => bindP (rItem (b.length + 1)) (fun it => pureP ((redisStep it).1, !(redisStep it).2)) b
+  | false => bindP (rItem redisLevels) (fun it => pureP ((redisStep it).1, !(redisStep it).2))
 
 /-- at the end of the stream the Scanner hands out an unterminated last line -/
 def redisFinish (closed : Bool) (buf : Bytes) : List Ev :=
-  if closed || buf.isEmpty then []
+  if closed || buf.isEmpty || buf.getLast? == some lf then []     -- no unterminated last line: nothing new
   else (drain { next := redisNext, finish := fun _ _ => [] } (buf.length + 2) false (buf ++ [lf])).1
 
 def redis : Proto Bool Ev := { next := redisNext, finish := redisFinish }
